@@ -210,6 +210,19 @@ int encode_operands(struct instr *instrc) {
     }
     instrc->rd_offset = instrc->opd[0].reg & VALUE_MASK;
   }
+  // movzx with a 16-bit source is opcode 0f b7 (the next table row); the
+  // 'word' keyword describes the source only and must not add a 0x66 prefix
+  if (NAME(instrc->key, movzx)) {
+    unsigned int src_mode = instrc->opd[1].reg & MODE_MASK;
+    if (instrc->mem_disp ? instrc->keyword.is_word
+                         : (src_mode == reg16 || src_mode == ext16)) {
+      instrc->key++;
+      if (instrc->keyword.is_word) {
+        instrc->keyword.is_word = false;
+        instrc->keyword.is_byte = true;
+      }
+    }
+  }
   // set 'byte' keyword
   if (instrc->mem_disp)
     auto_set_byte(instrc);
